@@ -17,6 +17,9 @@ import TboxModel.C14.ProofsRaw
 import TboxModel.C14.ProofsStream
 import TboxModel.C14.ProofsRpc
 import TboxModel.C14.ProofsRing
+import TboxModel.C14.ProofsServer
+import TboxModel.C14.ProofsProto
+import TboxModel.C14.ProofsTime
 namespace Tbox.C14
 
 /-! ## (1) header-stream framing -/
@@ -473,6 +476,212 @@ theorem C14_raw_backscan_in_bounds (pre : List Byte) (st : Scan) (seen : List By
   | nil => simp [scanRun] at h; rw [← h.1] at hs; simp at hs
   | cons c cs => subst hseen; simp
 
+/-! ## (5) the message encoders of proto.cpp, per message kind -/
+
+/-- **C14_message_roundtrip.** Every JSON value written by `sendRequest` (with or without id, with
+or without params), `sendResult` and `sendError` (with or without message) is dispatched by
+`onRecvJson` to exactly one callback with the same id, method/params, result, error code.
+(`id`, `errcode` are C++ `int`s; the JSON values `params`, `result` are arbitrary.) -/
+theorem C14_message_roundtrip (id code : Int) (hid : isInt32 id) (hc : isInt32 code)
+    (method message : String) (params result : J) :
+    recvJsonObj (mkRequest id method params) = [.request id method params] ∧
+    recvJsonObj (mkResult id result) = [.response id 0 result] ∧
+    recvJsonObj (mkError id code message) = [.response id code .null] :=
+  ⟨rt_request id hid method params, rt_result id hid result, rt_error id code hid hc message⟩
+
+/-- **C14_encoder_roundtrip.** For each framing: what the framing's encoder writes for a JSON value
+`j` (its `dump()`, framed), followed by anything, is received as exactly the message `j` — for every
+parser/printer pair with `parse (dump j) = some j` (the trusted nlohmann round trip); for the raw
+stream the printed text of the value must be a well-shaped top-level value (what `dump()` of an
+object or array is; the acceptor checks it for every message the real encoder writes). -/
+theorem C14_encoder_roundtrip {μ : Type} (parse : List Byte → Option μ) (dump : μ → List Byte)
+    (hpd : ∀ j, parse (dump j) = some j) (j : μ) (rest : List Byte) :
+    (∀ magic, (dump j).length < 2^32 →
+      recvData (decodeHeader magic) parse (encodeHeader magic (dump j) ++ rest) = some (.msg j (6 + (dump j).length))) ∧
+    ((∃ v, TopValue v ∧ dump j = printToks v) →
+      recvData decodeRaw parse (dump j ++ rest) = some (.msg j (dump j).length)) ∧
+    (2 ≤ (dump j).length → recvData decodePacket parse (dump j) = some (.msg j (dump j).length)) := by
+  refine ⟨?_, ?_, ?_⟩
+  · intro magic hl
+    unfold recvData
+    rw [C14_header_roundtrip magic (dump j) rest hl]
+    simp [hpd]
+  · rintro ⟨v, hv, he⟩
+    have := C14_raw_roundtrip [] (by simp) v hv rest
+    simp only [List.nil_append] at this
+    unfold recvData
+    rw [he, this, ← he]
+    simp [hpd]
+  · intro h2
+    unfold recvData
+    rw [(C14_packet_roundtrip (dump j)).2 h2]
+    simp [hpd]
+
+/-! ## (6) server half -/
+
+/-- **C14_server_request_answer.** One inbound request: an unknown method is answered with exactly
+one `kMethodNotFound` error; a synchronous service with exactly one response carrying the service's
+code (a notification, id 0, with none); an asynchronous service with none, the id being remembered. -/
+theorem C14_server_request_answer (s : Srv) (id code : Int) :
+    (s.recvRequest id .unknown).2 = [.sent id kMethodNotFound] ∧
+    (id ≠ 0 → (s.recvRequest id (.sync code)).2 = [.called id, .sent id code]) ∧
+    ((s.recvRequest 0 (.sync code)).2 = [.called 0] ∧ (s.recvRequest 0 .async).2 = [.called 0]) ∧
+    (id ≠ 0 → (s.recvRequest id .async).2 = [.called id] ∧ id ∈ (s.recvRequest id .async).1.tobe) := by
+  refine ⟨rfl, ?_, ⟨rfl, rfl⟩, ?_⟩
+  · intro h; simp [Srv.recvRequest, Srv.respond, h]
+  · intro h
+    refine ⟨by simp [Srv.recvRequest, h], ?_⟩
+    simp only [Srv.recvRequest, h, ne_eq, not_false_eq_true, if_true]
+    unfold Srv.monitorAdd
+    simp only
+    split <;> split <;> simp_all
+
+/-- **C14_server_sends_exactly.** For every sequence of inbound requests (any ids, repeated ids,
+any methods), `respond()` calls and respond-timeout ticks, and every id `i`: the number of
+responses sent with id `i` is exactly the number called for — one per request to a synchronous
+service, one error per request to an unknown method, one per `respond()` call.  The library never
+answers a request twice by itself and the respond timeout sends nothing. -/
+theorem C14_server_sends_exactly (s : Srv) (ops : List SOp) (i : Int) :
+    sentCount i (s.run ops).2 = expectedSends i ops := Srv_run_sends ops i s
+
+/-- **C14_server_respond_unchecked** (as coded; outside the statement of C14, which speaks of the
+requesting side): `respond()` does not consult `tobe_respond_` — it sends for an id that was never
+requested, sends again when called twice, and still sends after the respond timeout has dropped
+the id.  "Answered at most once" therefore holds for the library (`C14_server_sends_exactly`) but
+is not enforced against the application. -/
+theorem C14_server_respond_unchecked :
+    ((Srv.init 2).respond 9 0).2 = [.sent 9 0] ∧
+    ((Srv.init 2).run [.recv 1 .async, .respond 1 0, .respond 1 0]).2 = [.called 1, .sent 1 0, .sent 1 0] ∧
+    ((Srv.init 1).run [.recv 1 .async, .tick, .respond 1 0]).2 = [.called 1, .sent 1 0] ∧
+    ((Srv.init 1).run [.recv 1 .async, .tick]).1.tobe = [] := by decide
+
+/-! ## (7) two peers: the client's guarantees hold against any server and any pipe -/
+
+theorem world_step_client (w : World) (op : WOp) :
+    (w.step op).1.c = (run w.c (clientOp w op)).1 ∧ (w.step op).2.1 = (run w.c (clientOp w op)).2 := by
+  cases op with
+  | request c svc => simp [World.step, clientOp, run, step]
+  | notify svc => simp [World.step, clientOp, run, step]
+  | deliver b i =>
+    cases b with
+    | true =>
+      simp only [World.step, clientOp]
+      cases w.c2s[i]? <;> simp [run, World.serverRecv]
+    | false =>
+      simp only [World.step, clientOp]
+      cases w.s2c[i]? <;> simp [run, step, World.clientRecv]
+  | drop b i => cases b <;> simp [World.step, clientOp, run]
+  | dup b i => cases b <;> simp [World.step, clientOp, run]
+  | srespond id code => simp [World.step, clientOp, run]
+  | ctick => simp [World.step, clientOp, run, step]
+  | stick => simp [World.step, clientOp, run]
+
+/-- **C14_world_client_simulation.** Whatever the server peer and the pipe do (answer late, never,
+twice; drop, duplicate, reorder), what happens at the client peer is a run of the client model on
+the op sequence `clientOps` (its own requests, the responses actually delivered, its ticks). -/
+theorem C14_world_client_simulation (ops : List WOp) : ∀ w : World,
+    (w.run ops).1.c = (run w.c (clientOps w ops)).1 ∧ (w.run ops).2.1 = (run w.c (clientOps w ops)).2 := by
+  induction ops with
+  | nil => intro w; simp [World.run, clientOps, run]
+  | cons op ops ih =>
+    intro w
+    obtain ⟨h1, h2⟩ := world_step_client w op
+    obtain ⟨i1, i2⟩ := ih (w.step op).1
+    simp only [World.run, clientOps, run_append]
+    rw [← h1, ← h2, ← i1, ← i2]
+    exact ⟨rfl, rfl⟩
+
+/-- **C14_world_callback_once.** … hence, in the two-peer system, every completion callback of the
+client runs at most once, for every behaviour of the server application and of the pipe. -/
+theorem C14_world_callback_once (w : World) (h : RInv w.c) (ops : List WOp) (t : Nat) :
+    firedCount t (w.run ops).2.1 ≤ 1 := by
+  rw [(C14_world_client_simulation ops w).2]
+  exact (C14_callback_once w.c h _ t).1
+
+/-- **C14_world_callback_exactly_once.** … and a request for which no response with its id is
+delivered while the client sees `N − 1` of its ticks (the server answers never, or late, or its
+answers are lost) is completed exactly once, by the timeout of the `N`-th tick — later deliveries of
+late or duplicated answers included (`more`). -/
+theorem C14_world_callback_exactly_once (w : World) (hr : w.c.ring ≠ [])
+    (hf : ∀ y ∈ w.c.ring.flatten, y ≤ w.c.idAlloc) (hinv : RInv w.c) (chain : Bool) (svc : Service)
+    (ops more : List WOp)
+    (hno : NoResponseFor (w.c.idAlloc + 1) (clientOps (w.step (.request chain svc)).1 ops))
+    (ht : ticks (clientOps (w.step (.request chain svc)).1 ops) + 1 = w.c.ring.length) :
+    firedCount w.c.nTag (w.run (.request chain svc :: (ops ++ .ctick :: more))).2.1 = 1 := by
+  rw [(C14_world_client_simulation _ w).2]
+  have hsplit : clientOps w (.request chain svc :: (ops ++ .ctick :: more)) =
+      .request chain :: (clientOps (w.step (.request chain svc)).1 ops ++
+        .tick :: clientOps ((w.step (.request chain svc)).1.run (ops ++ [.ctick])).1 more) := by
+    simp only [clientOps, clientOp, List.singleton_append, List.cons.injEq, true_and]
+    have : ∀ (a b : List WOp) (v : World), clientOps v (a ++ b) = clientOps v a ++ clientOps (v.run a).1 b := by
+      intro a
+      induction a with
+      | nil => intro b v; simp [clientOps, World.run]
+      | cons x xs ih => intro b v; simp only [List.cons_append, clientOps, World.run, ih, List.append_assoc]
+    rw [show ops ++ WOp.ctick :: more = (ops ++ [.ctick]) ++ more by simp, this, this]
+    simp [clientOps, clientOp]
+  rw [hsplit]
+  simp only [run, step]
+  have hc : (w.step (.request chain svc)).1.c = (w.c.request chain).1 := by simp [World.step]
+  have := C14_callback_exactly_once w.c hr hf hinv chain _ (clientOps ((w.step (.request chain svc)).1.run (ops ++ [.ctick])).1 more) hno ht
+  simp only [firedCount_append]
+  have h0 : firedCount w.c.nTag (w.c.request chain).2 = 0 := by simp [Rpc.request, firedCount]
+  omega
+
+/-! ## (8) the deadline in milliseconds, under the tick timer as coded -/
+
+/-- **C14_timer_phase.** Along every timed history (requests, notifications, responses, clock
+advances of any size) from `initialize(proto, N)`: while the 1-s timer is enabled its next expiry lies
+in `(now, now + 1000]` — in particular the fuel `ms / 1000 + 2` of the loop's catch-up
+(`handleExpiredTimers`) always suffices: no due tick is left unexecuted — and the monitor invariant
+(`C14_pending_timer_on`) holds. -/
+theorem C14_timer_phase (n : Nat) (hn : 1 ≤ n) (ops : List TOp) :
+    TimeInv (runT (Rpc.init n) ops).1 ∧ TInv (runT (Rpc.init n) ops).1 [] :=
+  ⟨TimeInv_runT ops _ (by intro h; simp [Rpc.init] at h), TInv_runT ops _ (TInv_init n hn)⟩
+
+theorem DL_request (s : Rpc) (ht : TInv s []) (hti : TimeInv s) (hf : ∀ y ∈ s.ring.flatten, y ≤ s.idAlloc)
+    (c : Bool) : DL s.now s.ring.length (s.idAlloc + 1) (s.request c).1 (s.ring.length - 1) := by
+  have hl := Live_request s c ht.1 hf
+  have hpos : 0 < s.ring.length := List.length_pos_iff.mpr ht.1
+  refine ⟨hl, TInv_request s c [] ht, ?_⟩
+  rw [(request_time s c).2]
+  unfold Qb
+  by_cases hv : s.vn = 0
+  · simp only [hv, if_true]; omega
+  · simp only [hv, if_false]
+    have := hti (ht.2.2.1.mpr (by omega))
+    omega
+
+/-- **C14_deadline_ms.** A request is issued at clock `t0` (any reachable state: monitor and timer
+invariants of `C14_timer_phase`). For every timed continuation, the tick that hands its id to the
+timeout handler was scheduled for an instant in `(t0 + (N−1)·1000, t0 + N·1000]` and is executed by
+the loop at or after that instant (never early). -/
+theorem C14_deadline_ms (s : Rpc) (ht : TInv s []) (hti : TimeInv s)
+    (hf : ∀ y ∈ s.ring.flatten, y ≤ s.idAlloc) (c : Bool) (ops : List TOp) (e : TickRec)
+    (he : e ∈ logT (s.request c).1 ops) (hx : s.idAlloc + 1 ∈ e.items) :
+    s.now + (s.ring.length - 1) * 1000 < e.sched ∧ e.sched ≤ s.now + s.ring.length * 1000 ∧
+    e.sched ≤ e.clock :=
+  logT_bound s.now s.ring.length (s.idAlloc + 1) ops _ (Or.inl ⟨_, DL_request s ht hti hf c⟩) e he hx
+
+/-- **C14_deadline_reached.** … and it is not late either: once the clock has reached
+`t0 + N·1000` (and the loop has run, which every `adv` does), the id has been handed out — together
+with `C14_callback_timeout` the callback has run with the timeout code by then. -/
+theorem C14_deadline_reached (s : Rpc) (ht : TInv s []) (hti : TimeInv s)
+    (hf : ∀ y ∈ s.ring.flatten, y ≤ s.idAlloc) (c : Bool) (ops : List TOp)
+    (hclock : s.now + s.ring.length * 1000 ≤ (runT (s.request c).1 ops).1.now) :
+    cnt (s.idAlloc + 1) (runT (s.request c).1 ops).1.ring = 0 := by
+  have hd := DL_request s ht hti hf c
+  rcases runT_DL s.now s.ring.length (s.idAlloc + 1) ops _ (Or.inl ⟨_, hd⟩) with ⟨m, hl, hti', hq⟩ | hg
+  · exfalso
+    have hv := Live_vn_pos _ _ m [] hl hti'
+    have hon := hti'.2.2.1.mpr (by omega)
+    have htime : TimeInv (runT (s.request c).1 ops).1 :=
+      TimeInv_runT ops _ (TimeInv_of_TStep _ _ (TStep_request s c) hti)
+    have := htime hon
+    unfold Qb at hq
+    omega
+  · exact hg.2.2
+
 /-! ### non-vacuity / concrete runs (evaluation, not part of the unbounded claims) -/
 
 example : RInv (Rpc.init 3) := RInv_init 3
@@ -494,6 +703,18 @@ example :
     (run (Rpc.init 2) [.request false, .response 1 0, .response 1 0, .request false, .tick, .response 9 0,
                        .tick, .tick, .response 2 0]).2
       = [.sent 1, .fired 0 0, .sent 2, .fired 1 kRequestTimeout] := by decide
+
+-- timed layer: N = 2, request at t0 = 0 with the timer off: ticks scheduled for 1000 and 2000, run late
+-- (at 1100 and 2100) because the clock jumps; the id is handed out by the one scheduled for 2000 = t0 + N·1000
+example : logT ((Rpc.init 2).request false).1 [.adv 500, .adv 600, .adv 1000]
+      = [⟨1000, 1100, []⟩, ⟨2000, 2100, [1]⟩] := by decide
+example : TInv (Rpc.init 2) [] ∧ TimeInv (Rpc.init 2) := ⟨TInv_init 2 (by decide), by intro h; simp [Rpc.init] at h⟩
+
+-- world: async service, answered twice and once more after the client's timeout; the callback runs once
+example : ((World.run { c := Rpc.init 1, v := Srv.init 2 }
+      [.request false .async, .deliver true 0, .srespond 1 0, .srespond 1 5, .deliver false 1, .deliver false 0,
+       .ctick, .srespond 1 0, .deliver false 0]).2.1)
+      = [.sent 1, .fired 0 5] := by decide
 
 -- n = 1, 3: expiry exactly at the n-th tick; a chained request gets its own deadline
 example : (run (Rpc.init 1) [.request true, .tick, .tick, .tick]).2
